@@ -547,10 +547,17 @@ def all_weakrefs(tree):
 
     refs, index, parents = [], weakref.WeakValueDictionary(), weakref.WeakKeyDictionary()
     todo = [(tree, None)]
+    seen = set()
     while todo:
         x, par = todo.pop()
         if isinstance(x, c_ast.Node):
-            refs.append(weakref.ref(x))
+            if id(x) in seen:
+                continue  # a node object that occurs twice in the tree
+            seen.add(id(x))
+            try:
+                refs.append(weakref.ref(x))
+            except TypeError as ex:
+                raise TypeError(f"weakref:{x.__class__.__name__}|{ex}")
             index[id(x)] = x
             parents[x] = par
             for s in x.__slots__:
@@ -574,7 +581,11 @@ def weakref_problems(make_tree, stats):
         stats["weakref_family_checks"] += 1
 
     T = make_tree()
-    held = all_weakrefs(T)
+    try:
+        held = all_weakrefs(T)
+    except TypeError as ex:
+        sig, _, msg = str(ex).partition("|")
+        return [(sig if sig.startswith("weakref:") else "weakref:unknown", msg or str(ex))]
     stats["weakref_family_refs"] += 3 * len(held[0])
     run(T, "with-live-weakrefs", "weak references to every node created first")
     if not all(r() is not None for r in held[0]) or len(held[1]) != len(held[0]):
@@ -807,7 +818,6 @@ def run(tier):
               if any(x in ("present", "[n]", "[n,n']") for x in c)]
     n_hconf = len(hitems)
     hitems += [("text", o, t) for _, o, t in deepest]
-    st_h = sweep("history", _history_work, core.chunked(hitems, 8))
     by_size = sorted(st_p.get("depths", []), key=lambda d: (len(d[2]), d[2]))
     chosen = {}
     for d in by_size[:WEAKREF_SMALLEST] + [x for x in depths[:WEAKREF_DEEPEST]]:
@@ -816,9 +826,21 @@ def run(tier):
     n_wconf = len(witems)
     witems += [("text", d[1], d[2]) for d in sorted(chosen.values(), key=lambda d: (len(d[2]), d[2]))]
     st_w = sweep("weakrefs", _weakref_work, core.chunked(witems, 25))
+    # (the history family comes last: it is the one that provokes leftover state)
+    st_h = sweep("history", _history_work, core.chunked(hitems, 8))
     total.pop("depths", None)
 
-    R.fail_many(regroup(collected))
+    # a family failure whose kind also occurs without the family's situation is not caused by it
+    base = {_history_sig("", sig, prefix="").lstrip(">") for sig, case, _ in collected
+            if not (case.get("history") or case.get("weakrefs"))}
+    kept, explained = [], 0
+    for sig, case, det in collected:
+        if (case.get("history") or case.get("weakrefs")) and ">" in sig and sig.split(">", 1)[1] in base:
+            explained += 1
+            continue
+        kept.append((sig, case, det))
+    R.set("family_failures_already_seen_without_the_family", explained)
+    R.fail_many(regroup(kept))
 
     feats = total.get("features", {})
     need = ["empty-list", "absent-field", "quote-in-string", "backslash", "non-ascii"]
